@@ -608,8 +608,9 @@ class C08(PairProp):
     id = "C08"
     cone = ["Properties/C08.vo"]
     prop_file = "Properties/C08.v"
-    theorems = ["C08_examples"]
-    partial = ["C08_call (invocation = substituted body): stated; tied by S-pairs and S-e2e; proof pending"]
+    theorems = ["C08_call_runs_the_substituted_body", "C08_examples"]
+    partial = ["the substitution itself (Model/Proc3.subst_block, the model of argsSubstBlock) is compared with the manual's four rules by the S-pairs oracle (an independent Python substitution), not against a Coq specification",
+               "lifting the state-level equation to byte equality of whole documents needs the frame facts 'call depth, location and expansion count are not read by rendering', tied by S-pairs"]
     describe_pairs = "user macro invocation vs body with arguments substituted"
     BODIES = [[".Sm \\$1"], ["a \\$1 b"], [".Sm \\$1: \\$1=\\$2", "The key \\$1 is set."], [".P \\$@"], [".Sm \\$@"], ["x \\$@ y"], [".Sm -t t \\$1 \\$2"], ["\\$1\\$2"], [".Sm \\$2 \\$1"],
               [".Ch \\$1", "\\$1 again"], ["\\$?[f]x\\$[o]y"], [".Sm a\\$?[f]b \\$[o]"], [".It \\$1"], [".Sm \\$1 \\$@"], [".Bm", "\\$1", ".Em \\$2"]]
@@ -749,8 +750,9 @@ class C10(PairProp):
     id = "C10"
     cone = ["Properties/C10.vo"]
     prop_file = "Properties/C10.v"
-    theorems = ["C10_examples"]
-    partial = ["C10_lookup / C10_data / C10_literal: stated; tied by S-pairs and S-e2e; proof pending"]
+    theorems = ["C10_use_is_value", "C10_use_is_literal", "C10_rendered_like_literal", "C10_assigned_value", "C10_join", "C10_examples"]
+    partial = ["C10_toc_same (a title interpolating a variable shows the same value in place and in every TOC entry): follows from both passes executing the same assignments; tied by S-pairs with Tc, not proved",
+               "option-like and Sm/Bm/Em-like values in macro arguments (ParseOptions and inline processing look at literal text only): tied by S-pairs"]
     describe_pairs = "document using \\*[v] vs the document with the latest assigned value written literally"
     VALUES = ["x", "a b", "Sm", "Bm", "<&>", "a\"\"b", "$%_{}", "-t", "\\e", "1", "é", "a  b"]
     USES = ["u %s w", ".Sm %s", ".Sm a %s b", ".Ch T %s\n.Tc", ".P %s", ".It %s", ".Bl -t table C %s\n.It a\n.El\n.Tc -lot", ".Lk http://a %s", ".Im i.png %s\n.Tc -lof", ".Sh %s\n.Tc -mini"]
@@ -795,8 +797,9 @@ class C11(PairProp):
     id = "C11"
     cone = ["Properties/C11.vo"]
     prop_file = "Properties/C11.v"
-    theorems = ["C11_examples"]
-    partial = ["C11_paste (include = paste): stated; tied by S-pairs (splits at block boundaries, nesting to depth 3, cwd and FRUNDISLIB) and S-e2e; proof pending"]
+    theorems = ["C11_include_is_walk", "C11_paste_is_sequencing", "C11_examples"]
+    partial = ["the two theorems give include = walking the file's blocks in place, up to the current-file name, the include stack and the current-block flag; that rendering does not read these (only diagnostics and the cycle check do) is tied by S-pairs, not proved",
+               "C11_lib (a file found through FRUNDISLIB behaves like one in the current directory) is the hypothesis search_inc_file = (path, true), whatever path is; tied by S-pairs with library directories"]
     describe_pairs = "document vs the same document with a run of blocks moved into an included file"
     DOCS = [[".Ch A", "text one", ".Bm", "two", ".Em", ".Sh B", "three"], [".#dv v x", ".#de m", "\\*[v] \\$1", ".#.", ".m a", ".Bl", ".It i", ".El", "end \\*[v]"],
             [".Bd", "a", ".Ed", ".Bl -t enum", ".It x", ".It y", ".El", ".Tc"], ["p1", ".P", "p2", ".#if 1", "c", ".#;", ".Sm w", "tail"], [".Pt P", ".Ch C", ".Sh -id s S", ".Sx s", ".Tc -mini"]]
